@@ -1,9 +1,9 @@
 (* C15 -- witnesses.  (1) Regression: the sequences on which the tree violated
-   the invariant before the repairs d815d97 .. 71a6c5d / fb2ee00 now keep the
+   the invariant before the repairs (d815d97 .. 71a6c5d, fb2ee00, c6d3509, d57f5bc, 0b78ced) now keep the
    full invariant in the model of the current code.  (2) Refutation: states
    satisfying the full invariant and one operation after which the code as it
-   stands ([pinned]) still violates it; for the two with a proposed repair the
-   same operation keeps the invariant under [fixed].  All are replayed on the
+   stands ([pinned]) still violates it; for the one with a proposed repair
+   (C15-13) the same operation keeps the invariant under [fixed].  All are replayed on the
    real library by checks/C15.py. *)
 From Coq Require Import List NArith ZArith Bool.
 From GD Require Import C15.Order C15.NameTable.
@@ -80,18 +80,22 @@ Lemma w_loop : inv_full (w_loop_pre pinned) = true /\ snd (step pinned (w_loop_p
   /\ inv_full (fst (step pinned (w_loop_pre pinned) w_loop_op)) = true.
 Proof. repeat split; vm. Qed.
 
+Lemma w_stale : inv_full (w_stale_pre pinned) = true /\ inv_full (fst (step pinned (w_stale_pre pinned) w_stale_op)) = true.
+Proof. split; vm. Qed.
+Lemma w_dup : inv_full (w_dup_pre pinned) = true /\ snd (step pinned (w_dup_pre pinned) w_dup_op) = RInt E_DUPLICATE.
+Proof. split; vm. Qed.
+Lemma w_deref : inv_full (w_deref_pre pinned) = true /\ inv_full (fst (step pinned (w_deref_pre pinned) w_deref_op)) = true.
+Proof. split; vm. Qed.
+
 (* (2) still open *)
-Lemma w_stale : inv_full (w_stale_pre pinned) = true /\ alias_resolved (fst (step pinned (w_stale_pre pinned) w_stale_op)) = false
-  /\ alias_resolved (fst (step fixed (w_stale_pre fixed) w_stale_op)) = false.
+(* deleting an intermediate alias leaves the aliases that went through it resolved to the old target *)
+Definition w_inter_pre c := run c init_state [konst false None x_ 0; OAlias None b_ x_ 0; OAlias None a_ b_ 0].
+Definition w_inter_op := ODel b_ 8.
+Lemma w_inter : inv_full (w_inter_pre pinned) = true /\ alias_resolved (fst (step pinned (w_inter_pre pinned) w_inter_op)) = false
+  /\ inv_full (fst (step fixed (w_inter_pre fixed) w_inter_op)) = true.
 Proof. repeat split; vm. Qed.
 (* cross-container: adding the target of a top-level alias below a parent leaves D->fl stale *)
 Definition w_xcache_pre c := run c init_state [konst false None p_ 0; OAlias None al_ [112; 47; 120] 0; OList None S_ALL 0].
 Definition w_xcache_op := konst true (Some p_) x_ 0.
 Lemma w_xcache : inv_full (w_xcache_pre pinned) = true /\ cache_consistent (fst (step pinned (w_xcache_pre pinned) w_xcache_op)) = false.
-Proof. repeat split; vm. Qed.
-Lemma w_dup : inv_full (w_dup_pre pinned) = true /\ sorted_ok (fst (step pinned (w_dup_pre pinned) w_dup_op)) = false
-  /\ inv_full (fst (step fixed (w_dup_pre fixed) w_dup_op)) = true.
-Proof. repeat split; vm. Qed.
-Lemma w_deref : inv_full (w_deref_pre pinned) = true /\ alias_live (fst (step pinned (w_deref_pre pinned) w_deref_op)) = false
-  /\ inv_full (fst (step fixed (w_deref_pre fixed) w_deref_op)) = true.
 Proof. repeat split; vm. Qed.
